@@ -339,3 +339,99 @@ def respelling_findings(ops, ops2):
                      "op %d: %r vs its respelling %r: stores differ up to spelling: %r vs %r (outcomes %r vs %r)"
                      % (i, o, o2, ta, tb, ra, rb))]
     return []
+
+
+# ------------------------------------------------------------------------------ round 3: statement trees
+class _Raise(Exception):
+    pass
+
+
+def clean_shape(t) -> bool:
+    """only with-blocks (nested to any depth, entered once or twice) and raise statements"""
+    if t[0] == "raise":
+        return True
+    if t[0] == "block":
+        return all(clean_shape(b) for b in t[4])
+    if t[0] == "reuse":
+        return all(clean_shape(b) for b in t[3] + t[4])
+    return False
+
+
+def stmt_in_domain(t) -> bool:
+    if t[0] == "block":
+        return op_in_domain(["set", t[2], t[3]]) and all(stmt_in_domain(b) for b in t[4])
+    if t[0] == "reuse":
+        return op_in_domain(["set", t[1], t[2]]) and all(stmt_in_domain(b) for b in t[3] + t[4])
+    return op_in_domain(t)
+
+
+def _run_tree(orc, t, st, where):
+    im = orc.im
+    if t[0] == "raise":
+        raise _Raise()
+    if t[0] not in ("block", "reuse"):
+        out = orc.sop(t, where)        # the clauses of plain statements apply inside blocks too
+        if out is not None:
+            raise _Raise()
+        return
+    arg, kw = (t[2], t[3]) if t[0] == "block" else (t[1], t[2])
+    before = im.snapshot()
+    try:
+        cm = im.make_set(arg, kw)
+    except Exception:  # noqa
+        st["enter_failed"] = True
+        raise
+    bodies = [(t[1], t[4])] if t[0] == "block" else [(False, t[3]), (False, t[4])]
+    for n, (x, body) in enumerate(bodies):
+        body_exc = None
+        try:
+            with cm:
+                if n == 0:
+                    orc.check_set(["set", arg, kw], before, im.snapshot(), None)
+                try:
+                    for b in body:
+                        if x:
+                            _run_tree(orc, b, st, where)
+                        else:
+                            try:
+                                _run_tree(orc, b, st, where)
+                            except Exception:  # noqa
+                                pass
+                except Exception as e:  # noqa
+                    body_exc = e
+                    raise
+        except Exception as e:  # noqa
+            if e is not body_exc:
+                st["exit_raised"] = "%s: %s" % (type(e).__name__, e)
+            raise
+
+
+def nest_findings(ops, init_conf=None, init_dflts=None, impl=None):
+    """statement trees: the clauses of the plain statements inside, the set clauses at every enter,
+    and for trees made of with-blocks and raise statements only (every __init__ succeeding):
+    __exit__ does not raise and the store comes back exactly, at every nesting depth"""
+    orc = Oracle(init_conf, init_dflts, impl=impl)
+    im = orc.im
+    for i, t in enumerate(ops):
+        if t[0] not in ("block", "reuse"):
+            if not op_in_domain(t):
+                orc.in_domain = False
+            orc.sop(t, "op %d" % i)
+            continue
+        if not stmt_in_domain(t):
+            orc.in_domain = False
+        before = im.snapshot()
+        st = {"enter_failed": False, "exit_raised": None}
+        try:
+            _run_tree(orc, t, st, "op %d (inside)" % i)
+        except Exception:  # noqa
+            pass
+        after = im.snapshot()
+        if clean_shape(t) and not st["enter_failed"] and orc.in_domain:
+            if st["exit_raised"]:
+                orc.fail("context-manager-exit-raises", "op %d %r: __exit__ raised %s" % (i, t, st["exit_raised"]))
+            elif after != before:
+                orc.fail("nested-context-manager-no-restore",
+                         "op %d %r: after the outermost block the store is %r, before it was %r" % (i, t, after, before))
+        orc.check_tree_invariants(after, "op %d (after the tree)" % i)
+    return orc.findings
